@@ -271,7 +271,7 @@ def cases(draw):
 
 def subchecks(tier):
     return [
-        Given("space_assignment", cases(), prop, quick=500, thorough=40000, floors={"waited_then_admitted": 0.3, "departed_while_waiting": 0.15, "early_departure_happened": 0.08, "more_sessions_than_stations": 0.5}),
+        Given("space_assignment", cases(), prop, quick=500, thorough=40000, floors={"waited_then_admitted": 0.3, "departed_while_waiting": 0.15, "early_departure_happened": 0.08, "more_sessions_than_stations": 0.37}),
         Given("reproducible", cases(), prop_reproducible, quick=60, thorough=3000, jobs_quick=2),
     ]
 
